@@ -13,6 +13,7 @@ import (
 	"sort"
 	"strings"
 	"sync"
+	"sync/atomic"
 	"time"
 )
 
@@ -93,7 +94,13 @@ type ReqRecord struct {
 	RespHdr  http.Header
 	// OrigBody is what the handler produced, before any body fault.
 	OrigBody []byte
+	gone     atomic.Bool
+	finished atomic.Bool
 }
+
+// ClientGone reports whether the client has closed the connection (it gave
+// up on this request: time-out or cancellation).
+func (q *ReqRecord) ClientGone() bool { return q.gone.Load() }
 
 // Altered reports whether the body delivered (or cut short) differs from
 // what the handler produced.
@@ -132,6 +139,7 @@ type Net struct {
 	servers map[string]*Server
 	reqs    []*ReqRecord
 	stalled []net.Conn
+	healGen int
 	// Policy decides, on the scheduler goroutine and at release time, how a
 	// pending request is answered. nil = always normal.
 	Policy func(q *ReqRecord) FaultSpec
@@ -266,11 +274,19 @@ func (n *Net) serve(conn net.Conn, srv *Server, isTLS bool) {
 	n.reqs = append(n.reqs, q)
 	n.mu.Unlock()
 	req.Body = io.NopCloser(bytes.NewReader(body))
+	go func() {
+		// the client sends nothing after its request: a read returns only
+		// when either side closes the connection
+		var one [1]byte
+		if _, err := br.Read(one[:]); err != nil && !q.finished.Load() {
+			q.gone.Store(true)
+		}
+	}()
 
 	v := n.r.ParkWith(&Parked{Site: "net.req", Who: q.String(), Data: q})
 	spec, _ := v.(FaultSpec)
 	q.Fault = spec
-	defer func() { q.Done = true }()
+	defer func() { q.finished.Store(true); q.Done = true }()
 	if !spec.Benign() {
 		n.r.Fault(spec.Kind)
 	} else if spec.Kind == FChunk {
@@ -290,12 +306,13 @@ func (n *Net) serve(conn net.Conn, srv *Server, isTLS bool) {
 		n.mu.Unlock()
 		// Wait until the client gives up or the network heals (which
 		// closes this connection).
-		var one [1]byte
-		for {
-			if _, err := conn.Read(one[:]); err != nil {
+		for !q.gone.Load() {
+			if n.healed() {
 				return
 			}
+			time.Sleep(time.Second)
 		}
+		return
 	case FDelay:
 		time.Sleep(spec.Delay)
 	}
@@ -434,11 +451,18 @@ func writeRespCL(conn net.Conn, code int, hdr http.Header, body []byte, cl int) 
 	conn.Write(b.Bytes())
 }
 
+func (n *Net) healed() bool {
+	n.mu.Lock()
+	defer n.mu.Unlock()
+	return n.healGen > 0
+}
+
 // Heal closes every stalled connection and brings all servers up.
 func (n *Net) Heal() {
 	n.mu.Lock()
 	st := n.stalled
 	n.stalled = nil
+	n.healGen++
 	for _, s := range n.servers {
 		s.Up = true
 		s.RefuseDials = nil
